@@ -2,8 +2,9 @@ import Juniper.Proofs.TreeIterProps
 /-!
 # C02 — tree iterators stay correct while the tree is modified between Next calls (property theorems)
 
-The model iterator (cursor = node identity, index, remembered key, generation; `lost()` and the re-seek
-regenerated from `btree.go`) is shown to refine the *resume-key iterator* of the specification for every
+The model iterator (cursor = node identity, index, remembered key, generation; `lost()`, the re-seek, the sticky
+cut-off `done` and the in-range test — on the key, before the value is read — regenerated from `btree.go`; the
+equivalence with the former `iterator.While` wrapping is `Proofs/TreeWhile.iterNext_eq_while`) is shown to refine the *resume-key iterator* of the specification for every
 interleaving of `Put`/`Delete` with `Next` calls of any number of live forward and reverse iterators
 (`iter_refines_resume`); the property's clauses are then theorems about the specification iterator.
 Helper lemmas are in `Juniper/Proofs/Tree*.lean`.
@@ -13,26 +14,40 @@ open Juniper.Gen.Tree Juniper.Model.BTree Juniper.Proofs.Tree
 
 variable {K V : Type}
 
-/-- "once it reports exhaustion it keeps doing so", far-bound half in the model: after the `While` wrapper has
-seen one key beyond the far bound it never calls the cursor again and answers `end` on whatever tree. -/
-theorem while_cutoff_sticky (cmp : K → K → Int) (t : Tree K V) (it : Iter K) (op : CmpOp) (key : K)
-    (hs : it.stop = some (op, key)) (hd : it.done = true) :
-    iterNext cmp t it = (it, none) := by
+/-- "once it reports exhaustion it keeps doing so", far-bound half in the model: once the in-range predicate has
+failed (`iter.done`), `Next` answers `end` on whatever tree, without looking at the tree or the cursor again (and
+without evaluating `lost()`: no panic). The guard is the regenerated `if iter.done` of both `Next` methods. -/
+theorem cutoff_sticky (cmp : K → K → Int) (t : Tree K V) (it : Iter K) (hd : it.done = true) :
+    iterNext cmp t it = (it, none) ∧ iterNextPanics t it = false := by
+  obtain ⟨g1, _, _, _, _⟩ := iter_guards
+  unfold iterNext iterNextPanics
+  simp [hd, g1]
+
+/-- the cut-off happens exactly when the predicate fails on the key the cursor is parked on (after the re-seek of a
+lost cursor) — **decided on the key alone, before the value slot is read** — and it is sticky (`iter.done = true`
+is in the source); an in-range key is yielded with the value read *before* the cursor moves on. -/
+theorem cutoff_exact (cmp : K → K → Int) (t : Tree K V) (it : Iter K) (op : CmpOp) (key : K) (p : Pos K)
+    (hs : it.stop = some (op, key)) (hd : it.done = false) (hp : (iterReseek cmp t it.fwd it.c).pos = some p) :
+    (evalOp op (cmp p.k key) = false →
+      iterNext cmp t it = ({ it with c := iterReseek cmp t it.fwd it.c, done := true }, none)) ∧
+    (evalOp op (cmp p.k key) = true → (iterNext cmp t it).2 = some (p.k, valueAt t p)) := by
+  obtain ⟨g1, g2, g3, _, g5⟩ := iter_guards
   unfold iterNext
-  simp [hs, hd, whileChecksDone]
+  constructor <;> intro hk <;> simp [hs, hd, hp, hk, g1, g2, g3]
 
-/-- the cut-off is set exactly when the predicate fails (`iter.done = true` is present in the source); a lost
-forward iterator re-seeks `>=`, a lost backward iterator `<=`, a merged-away node is marked (`right.n = 0`),
-and `Put`/`Delete` bump the generation when the structure changes. -/
-theorem iterator_facts : whileSticky = true ∧ whileStops false = true ∧ whileStops true = false ∧
-    whileChecksDone true = true ∧ whileChecksDone false = false ∧ iterReseeks = true ∧ iterReadsThenSteps = true ∧
-    cursorLostReseeks = true ∧ mergeZeroesRight = true ∧ putBumpsGen = true ∧ deleteBumpsGen = true ∧
-    seekSetsGen = true ∧ seekFirstSetsGen = true ∧ seekLastSetsGen = true := by decide
+/-- **"It never panics", `Next` on a cursor that is off the edge.** `Next` begins with `iter.c.lost()`. On an
+exhausted iterator, or one created on an empty range, `curr == nil`; the regenerated `lost()` expression, evaluated
+as the Go code evaluates it, must then not consult `c.curr.n` / `c.curr.keys[c.i]` — it does not (the conjunct
+`c.curr != nil &&` guards them), for any pair of generations, i.e. after any number of structural changes. Deleting
+the guard from `btree.go` makes this theorem, `iter_total` and `iter_refines_resume` fail. -/
+theorem next_off_edge_never_derefs_nil (t : Tree K V) (it : Iter K) : iterNextPanics t it = false := by
+  simp [iterNextPanics, lost_guards_nil]
 
-/-- A cursor parked in a node that has left the tree (merged away: `right.n = 0`; collapsed root: `n = 0`) and whose
-generation is stale considers itself lost — so it re-seeks by key instead of reading the dead node. -/
+/-- A cursor parked in a node that has left the tree (merged away: `right.n = 0` — the regenerated presence fact
+`mergeZeroesRight`, through `retiredN` —; collapsed root: `n = 0`) and whose generation is stale considers itself
+lost — so it re-seeks by key instead of reading the dead node. -/
 theorem retired_nodes_are_lost (cmp : K → K → Int) (t : Tree K V) (c : Cursor K) (p : Pos K) (hp : c.pos = some p)
-    (hg : c.gen ≠ t.gen) (hf : findNode p.id t.root = none) (_hz : mergeZeroesRight = true := by decide) :
+    (hg : c.gen ≠ t.gen) (hf : findNode p.id t.root = none) :
     lostAt cmp t c = true := by
   have hg' : ¬ ((c.gen : Int) = (t.gen : Int)) := by omega
   simp [lostAt, hp, hf, lost, hg']
@@ -103,7 +118,7 @@ theorem iter_refines_resume (cmp : K → K → Int) (hs : StrictWeak cmp) (sts :
 /-- the empty tree without iterators is related to the empty map -/
 theorem sim_init (cmp : K → K → Int) :
     Sim cmp (⟨Tree.empty, fun _ => none⟩ : MSt K V) ⟨[], fun _ => none⟩ :=
-  ⟨inv_empty cmp, by simp [Tree.empty], fun _ => rfl, fun _ _ h => by cases h⟩
+  ⟨inv_empty cmp, by simp [Tree.empty], fun _ => rfl⟩
 
 /-- non-vacuity: from the empty tree every script is covered. -/
 example (cmp : K → K → Int) (hs : StrictWeak cmp) (sts : List (Step K V)) :
@@ -112,8 +127,10 @@ example (cmp : K → K → Int) (hs : StrictWeak cmp) (sts : List (Step K V)) :
   obtain ⟨m', os, h1, _, h3⟩ := iter_refines_resume cmp hs sts _ _ (sim_init cmp)
   exact ⟨m', os, h1, h3⟩
 
-/-- "it never panics or spins": the model's `Next` is a total function without a panic outcome, and on every
-reachable state (simulation relation) no step of any script dereferences a nil pointer. -/
+/-- "it never panics or spins": on every reachable state (simulation relation) no step of any script dereferences a
+nil pointer — neither a `Put`/`Delete` (`crash` outcomes of `ins`/`del`) nor a `Next` (`iterNextPanics`: the `lost()`
+call at its top on a cursor with `curr == nil`, see `next_off_edge_never_derefs_nil`) —, and every `Next` is a
+terminating function. -/
 theorem iter_total (cmp : K → K → Int) (hs : StrictWeak cmp) (sts : List (Step K V))
     (m : MSt K V) (s : SSt K V) (h : Sim cmp m s) : (mrun cmp m sts).isSome = true := by
   obtain ⟨m', os, h1, _, _⟩ := sim_run hs sts m s h
@@ -186,5 +203,33 @@ example : let cmp : Int → Int → Int := fun a b => a - b
     (snext cmp [(1, 10), (2, 20), (3, 30), (4, 40)] it1).2 = some (3, 30) ∧
     (snext cmp [(1, 10), (2, 20), (3, 30), (4, 40)] (snext cmp [(1, 10), (2, 20), (3, 30), (4, 40)] it1).1).2 = some (4, 40) := by
   simp [smk, startOf, stopOf, snext, sraw, ahead, geS, aboveLo, seekFirstGreaterOrEqualStep]
+
+/-! ## non-vacuity with a lost cursor (audit C02-F4) -/
+
+/-- the comparator of the example -/
+def exCmp : Int → Int → Int := fun a b => a - b
+theorem exCmp_sw : StrictWeak exCmp := ⟨by intro a b; unfold exCmp; omega, by intro a b c; unfold exCmp; omega⟩
+
+/-- 16 ascending puts (the root splits: leaves `1 … 8 | 10 … 16`, separator 9), a forward iterator
+`Range(Included 12, Unbounded)` — parked on key 12 in the right leaf (node 1, index 2) —, then `Delete 10`, `Delete 11`: the right
+leaf underflows and is merged into the left one, so the cursor's node object has left the tree, the generation is stale and
+`lostAt` is `true` (by evaluation of the model: cursor `(1, 2, 12)`, `findNode 1 = none`); then three `Next`s -/
+def lostScript : List (Step Int Int) :=
+  (List.range 16).map (fun (i : Nat) => Step.mutate (.put ((i : Int) + 1) (10 * ((i : Int) + 1)))) ++
+  [.mk 0 true ⟨some .incl, 12⟩ ⟨some .unb, 0⟩, .mutate (.del 10), .mutate (.del 11), .next 0, .next 0, .next 0]
+
+def yieldOf {β : Type} : Obs β → Option (Option β)
+  | .yielded r => some r
+  | _ => none
+
+set_option maxRecDepth 4000 in
+/-- … the model runs the script to the end (no nil dereference) and its three `Next`s return what the specification returns:
+`12 ↦ 120` (re-sought by key in the merged node), `13 ↦ 130`, `14 ↦ 140`. -/
+example : ∃ m' os, mrun exCmp (⟨Tree.empty, fun _ => none⟩ : MSt Int Int) lostScript = some (m', os) ∧
+    ObsAll exCmp os (srun exCmp ⟨[], fun _ => none⟩ lostScript).2 ∧
+    ((srun exCmp (⟨[], fun _ => none⟩ : SSt Int Int) lostScript).2.drop 19).map yieldOf =
+      [some (some (12, 120)), some (some (13, 130)), some (some (14, 140))] := by
+  obtain ⟨m', os, h1, _, h3⟩ := iter_refines_resume exCmp exCmp_sw lostScript _ _ (sim_init exCmp)
+  exact ⟨m', os, h1, h3, by decide⟩
 
 end Juniper.Props.C02
